@@ -9,6 +9,7 @@ mod c09;
 mod c10;
 mod c11;
 mod c12;
+mod c14;
 mod ctx;
 mod docs;
 mod obs;
@@ -37,6 +38,7 @@ fn registry(id: &str) -> Option<Box<dyn Check>> {
         "C10" => Some(Box::new(c10::C10)),
         "C11" => Some(Box::new(c11::C11)),
         "C12" => Some(Box::new(c12::C12)),
+        "C14" => Some(Box::new(c14::C14)),
         _ => None,
     }
 }
